@@ -106,6 +106,10 @@ pub struct SaleCfg {
     pub wl_flex_count: u32,
     /// requested collection start_trading_time at creation (absolute nanoseconds); None = not given
     pub start_trading: Option<u64>,
+    /// tiered kinds: the price of stage i of the whitelist created with the world (empty = `wl_price` for all)
+    pub wl_stage_prices: Vec<u128>,
+    /// denom of the whitelist created with the world (None = the factory denom)
+    pub wl_denom: Option<String>,
 }
 impl SaleCfg {
     pub fn basic(variant: usize) -> Self {
@@ -126,6 +130,8 @@ impl SaleCfg {
             wl_members: vec!["buyer1", "buyer2"],
             wl_flex_count: 2,
             start_trading: None,
+            wl_stage_prices: vec![],
+            wl_denom: None,
         }
     }
 }
@@ -260,7 +266,8 @@ impl SaleWorld {
         };
         let denom = cfg.fp.denom.clone();
         if cfg.wl != WlKind::None {
-            let a = w.make_whitelist(cfg.wl, &cfg.wl_windows, cfg.wl_price, &denom, cfg.wl_limit, cfg.wl_stage_limit)?;
+            let wl_denom = cfg.wl_denom.clone().unwrap_or_else(|| denom.clone());
+            let a = w.make_whitelist(cfg.wl, &cfg.wl_windows, cfg.wl_price, &wl_denom, cfg.wl_limit, cfg.wl_stage_limit)?;
             w.whitelist = Some(a);
         }
         let create = json!({"create_minter": {
@@ -326,10 +333,13 @@ impl SaleWorld {
         let members = self.cfg.wl_members.clone();
         let flexm: Vec<Value> =
             members.iter().map(|m| json!({"address": m, "mint_count": self.cfg.wl_flex_count})).collect();
+        // per-stage prices apply to the whitelist created with the world (its windows are cfg.wl_windows)
+        let stage_prices: Vec<u128> = if windows == self.cfg.wl_windows.as_slice() { self.cfg.wl_stage_prices.clone() } else { vec![] };
         let stages: Vec<Value> = windows
             .iter()
             .enumerate()
             .map(|(i, (s, e))| {
+                let price = stage_prices.get(i).copied().unwrap_or(price);
                 let mut st = json!({"name": format!("stage{}", i), "start_time": ts(now + s * S), "end_time": ts(now + e * S),
                        "mint_price": coinv(price, denom), "mint_count_limit": stage_limit});
                 // tiered-whitelist-flex stages have no per_address_limit (the member's own count is the limit)
